@@ -18,6 +18,11 @@ def regen_slots():
     import slots
     return slots.regenerate()
 
+def _bd(c):
+    """the boundary handed to the implementation: an integer, or (one case in seven) the NON-INTEGER k + 1/2, e.g. 0.05 s x 250 Hz = 12.5 samples; extrema are
+    kept iff boundary < index < len - boundary, which for k + 1/2 is what the integer k gives (the model is asked with k)"""
+    return c['boundary'] + 0.5 if c.get('bfrac') else c['boundary']
+
 def _fmt(pk, tr):
     return ['ok', [[str(int(x)) for x in pk], [str(int(x)) for x in tr]]]
 
@@ -39,16 +44,16 @@ def _impl_signal(c):
                     except Exception:
                         pass
                 if repr(fk) != snap: return ['err', 'RefusedCallChangedOptions']
-            pk, tr = find_extrema(sig, c['fs'], implutil.frange(c), boundary=c['boundary'], first_extrema=c['first'], filter_kwargs=fk, pad=c['pad'], **ptk)
+            pk, tr = find_extrema(sig, c['fs'], implutil.frange(c), boundary=_bd(c), first_extrema=c['first'], filter_kwargs=fk, pad=c['pad'], **ptk)
             # the caller keeps using its settings dictionary: a second call must see the same settings
-            pk2, tr2 = find_extrema(sig, c['fs'], implutil.frange(c), boundary=c['boundary'], first_extrema=c['first'], filter_kwargs=fk, pad=c['pad'], **ptk)
+            pk2, tr2 = find_extrema(sig, c['fs'], implutil.frange(c), boundary=_bd(c), first_extrema=c['first'], filter_kwargs=fk, pad=c['pad'], **ptk)
             if repr(fk) != snap or not (np.array_equal(pk, pk2) and np.array_equal(tr, tr2)):
                 return ['err', 'SecondCallDiffers']
             if c['first'] == 'peak' and len(pk) >= 1 and len(tr) >= 1 and not c.get('pass_type'):
                 # the feature-level route: compute_cyclepoints hands the same options on and builds its table from these arrays
                 from bycycle.features import compute_cyclepoints
                 try:
-                    df = compute_cyclepoints(sig, c['fs'], implutil.frange(c), boundary=c['boundary'], filter_kwargs=fk, pad=c['pad'])
+                    df = compute_cyclepoints(sig, c['fs'], implutil.frange(c), boundary=_bd(c), filter_kwargs=fk, pad=c['pad'])
                     if not (np.array_equal(df['sample_peak'].values, pk[1:]) and np.array_equal(df['sample_last_trough'].values, tr[:-1])
                             and np.array_equal(df['sample_next_trough'].values, tr[1:])):
                         return ['err', 'CyclepointsRouteDiffers']
@@ -80,7 +85,7 @@ def _impl_pattern(c):
     ex.filter_signal = lambda s, *a, **k: np.where(b, 1.0, np.where(z, 0.0, -1.0))     # exact zeros count as non-positive
     ex.compute_filter_length = lambda *a, **k: 2 * c['padlen'] - 1 if c['padlen'] > 0 else 0
     try:
-        pk, tr = ex.find_extrema(sig, 100, (8, 12), boundary=c['boundary'], first_extrema=c['first'], pad=c['padlen'] > 0)
+        pk, tr = ex.find_extrema(sig, 100, (8, 12), boundary=_bd(c), first_extrema=c['first'], pad=c['padlen'] > 0)
         return _fmt(pk, tr)
     except Exception as e:
         return ['err', type(e).__name__]
@@ -117,7 +122,7 @@ def generate(ctx):
         first = rng.choice(['peak', 'trough', 'None', 'None', 'bogus'], p=[0.35, 0.3, 0.15, 0.15, 0.05])
         first = None if first == 'None' else str(first)
         cases.append(dict(kind='signal', sig=proto.arr2hex(s['sig']), fs=s['fs'], f_range=list(s['f_range']), fk=fk,
-                          boundary=int(rng.choice([0, 0, 1, 3, 10, 50])), first=first, pad=bool(rng.random() < 0.75), family=s['family'], pres=(str(rng.choice(['readonly', 'strided'])) if rng.random() < 0.3 else 'array')))
+                          boundary=int(rng.choice([0, 0, 1, 3, 10, 50])), first=first, pad=bool(rng.random() < 0.75), bfrac=bool(len(cases) % 7 == 3), family=s['family'], pres=(str(rng.choice(['readonly', 'strided'])) if rng.random() < 0.3 else 'array')))
         if rng.random() < 0.12:      # the rarely used pass_type option: low-pass / high-pass half-waves (several cut-offs: consecutive cases differ only in f_hi)
             pt = str(rng.choice(['lowpass', 'lowpass', 'highpass']))
             cases[-1].update(pass_type=pt, f_range=([None, float(rng.choice([10.0, 15.0, 25.0, 40.0]))] if pt == 'lowpass' else [float(rng.choice([4.0, 8.0])), None]), fk=(None if rng.random() < 0.5 else {'n_cycles': int(rng.choice([3, 5]))}))      # find_extrema documents a 1d ARRAY (lists / Series are only accepted with pad=True)
@@ -131,7 +136,7 @@ def generate(ctx):
             b[pos:pos + ln] = val; pos += ln; val = not val
         sig = [int(x) for x in rng.integers(-2, 3, size=n)]
         z = proto.enc_bits((~b) & (rng.random(m) < rng.choice([0.0, 0.5, 1.0])))
-        cases.append(dict(kind='pattern', sig=sig, b=proto.enc_bits(b), z=z, padlen=padlen, boundary=int(rng.choice([0, 0, 1, 2, 5])),
+        cases.append(dict(kind='pattern', sig=sig, b=proto.enc_bits(b), z=z, padlen=padlen, bfrac=bool(len(cases) % 7 == 3), boundary=int(rng.choice([0, 0, 1, 2, 5])),
                           first=str(rng.choice(['peak', 'trough', 'None']))))
         if rng.random() < 0.2:       # the same pattern as a fixed-width integer array reaching the limits of its type
             cases[-1]['dt'] = str(rng.choice(list(INT_MAP)))
@@ -165,6 +170,6 @@ def evaluate(ctx, cases):
         judge_ok = True if spec == 'no-crossings' else impl == spec
         nt = impl[0] == 'err' or len(impl[1][0]) + len(impl[1][1]) >= 2
         ctx.hist('outcome', (impl[1] if impl[0] == 'err' else 'ok') + ('' if spec != 'no-crossings' else ':no-crossings'))
-        key = (c['kind'], hash(tuple(c['sig'])), c.get('b'), c.get('padlen'), c['boundary'], c['first'], repr(c.get('fk')), c.get('pad'), c.get('fs'), c.get('dt'), c.get('pass_type'), repr(c.get('f_range')))
+        key = (c['kind'], hash(tuple(c['sig'])), c.get('b'), c.get('padlen'), c['boundary'], c['first'], repr(c.get('fk')), c.get('pad'), c.get('fs'), c.get('dt'), c.get('pass_type'), repr(c.get('f_range')), c.get('bfrac'))
         out.append(Result(c, judge_ok=judge_ok, corr_ok=corr_ok, sig=hash(key), nontrivial=nt, info=dict(impl=impl, model=model, spec=spec)))
     return out
